@@ -508,7 +508,18 @@ class Events(Part):
         live_status = [int(x) for x in ss.Line.u.v]
         got_iso = sorted(int(b) for b in ss.Bus.islanded_buses)
         got_sets = {frozenset(int(b) for b in s) for s in ss.Bus.island_sets}
-        if not ok:
+        # well-posed at every stage: each island with two or more buses contains the slack bus (bus 0); an island of loads
+        # without any source has no solution and is not what "neutralised" is about
+        well_posed = True
+        st = [1] * 5
+        for tt in sorted({ev[1] for ev in case}):
+            for ev in case:
+                if ev[1] == tt:
+                    st[ev[0]] = 1 - st[ev[0]]
+            _, sets_t = components(4, [self.LINES[k] for k in range(5) if st[k]])
+            if any(0 not in c for c in sets_t):
+                well_posed = False
+        if not ok and well_posed:
             out.bad('run_failed_after_switching', f'after switchings {case}: TDS.run returned {ok} ({ss.TDS.err_msg!r}); buses isolated '
                     f'by a switching must be neutralised, not spoil convergence')
         if live_status == status and case:
